@@ -183,9 +183,11 @@ def main(argv=None):
     known_lines = []
     discharged = 0
     under_exclusion = 0
+    bounded_ok = [o for o in obligations if o.get("kind") == "bounded" and o["status"] == "proved"]
     for o in obligations:
         if o["status"] == "proved":
-            discharged += 1
+            if o.get("kind") != "bounded":      # bounded checks are never counted as proved (DESIGN 2.8)
+                discharged += 1
             continue
         if o["status"] == "unknown":
             undecided.append({"obligation": o["id"], "why": "solver unknown: " + (o.get("reason") or "")})
@@ -239,7 +241,8 @@ def main(argv=None):
     evidence = {
         "property_id": prop, "tier": tier, "seed": seed, "level": "proof",
         "coverage": {
-            "obligations": len(obligations) - under_exclusion,
+            "obligations": len(obligations) - under_exclusion - len(bounded_ok),
+            "bounded_checks_passed": len(bounded_ok),
             "discharged": discharged,
             "obligations_failing_as_recorded_known_findings": under_exclusion,
             "obligations_generated_total": len(obligations),
@@ -257,7 +260,7 @@ def main(argv=None):
             "engine_errors": engine_errors,
             "missing_vs_lock": really_missing,
             "known_findings": [r for r in kf_results],
-            "bounded": getattr(pack, "BOUNDED", []),
+            "bounded": list(getattr(pack, "BOUNDED", [])) + [{"id": o["id"], "bound": o.get("bound", ""), "vcs": o["vcs"]} for o in bounded_ok],
             "obligation_list": [{"id": o["id"], "status": o["status"], "vcs": o["vcs"]} for o in obligations],
             "dropped_by_extraction": ["docstrings", "type annotations (sort hints only)", "logger.* statements (PY-LOG)",
                                       "del statements"],
@@ -280,7 +283,7 @@ def main(argv=None):
         print(f"ENGINE-ERROR property={prop} {e}")
     for m in really_missing:
         print(f"MISSING-OBLIGATION property={prop} {m} (locked but not generated: vacuity guard)")
-    print(f"{prop}: obligations={len(obligations)} discharged={discharged} under-exclusion={under_exclusion} "
+    print(f"{prop}: obligations={len(obligations)} discharged={discharged} bounded-passed={len(bounded_ok)} under-exclusion={under_exclusion} "
           f"refuted-new={len(new_violations)} undecided={len(undecided)} functions={len(fn_infos)} "
           f"solver={solver_seconds}s wall={wall:.1f}s exit={exit_code}")
     return exit_code
